@@ -14,6 +14,7 @@ import EsbuildModel.Impl.Rename
 import EsbuildModel.Impl.Writes
 import EsbuildModel.Impl.SmSections
 import EsbuildModel.Impl.Ctx
+import EsbuildModel.Impl.Lower
 
 open EsbuildModel
 
@@ -35,6 +36,7 @@ def dispatch (kernel : String) (args : List String) : String :=
   | "writes" => Writes.driver args
   | "smsections" => SmSections.driver args
   | "ctx" => Ctx.driver args
+  | "lower" => Lower.driver args
   | _ => "bad-kernel"
 
 partial def loop (hin hout : IO.FS.Stream) : IO Unit := do
